@@ -11,6 +11,7 @@ from sa.loader import AnalysisError, Unsupported, dotted_name, norm_text
 from sa.members import self_attr
 from sa.poly import Rat, ToRat
 from sa.report import where
+from sa.util import local_assignments
 
 GM = 'torchtree.distributions.gmrf'
 GI = 'torchtree.distributions.gmrf_integrated'
@@ -411,18 +412,43 @@ def check_grouping(ctx, rep):
         ok_terms = names is not None and any(t in (f"{names[1]}*{names[2]}", f"{names[1]}[i]*{names[2]}[i]") for t in split_terms)
         rep.check('C20.G', f"{cname}.sufficient_statistics::terms-are-C(k,2)·interval", ok_terms, W, facts,
                   f"{cname}: the statistics must sum lchoose2·interval of _sorted_terms within each piece")
+        # the split points are computed from the rows they split: the mask compared with the mark is the one _sorted_terms returned, indexed like the split terms
+        defs = local_assignments(ss)
+        for k, c in enumerate(splits):
+            data_idx = sorted({ast.unparse(x.slice) for x in ast.walk(c.args[0]) if isinstance(x, ast.Subscript) and isinstance(x.value, ast.Name) and names and x.value.id in names})
+            masks = []
+            for cmp_ in ast.walk(c.args[1]):
+                if isinstance(cmp_, ast.Compare) and isinstance(cmp_.ops[0], ast.Eq):
+                    left = cmp_.left
+                    hops = 0
+                    while isinstance(left, ast.Name) and names and left.id != names[0] and len(defs.get(left.id, [])) == 1 and hops < 5:
+                        left = defs[left.id][0]
+                        hops += 1
+                    masks.append(left)
+            want = (f"{names[0]}[{data_idx[0]}]" if len(data_idx) == 1 else names[0]) if names else None
+            same_rows = bool(masks) and len(data_idx) <= 1 and all(ast.unparse(x) == want for x in masks)
+            rep.check('C20.G', f"{cname}.sufficient_statistics::split-points-from-the-rows-they-split#{k}", same_rows, where(m, c),
+                      {'terms': split_terms[k], 'mask': [ast.unparse(x)[:80] for x in masks], 'expected_mask': want},
+                      f"{cname}: the terms `{split_terms[k][:60]}` are split at positions computed from `{[ast.unparse(x)[:60] for x in masks]}`; the positions must come from "
+                      f"the event marks of the very rows being split (`{want}`): event order differs between sampled trees, so positions taken from another row or a "
+                      f"reshaped / selected copy put sample s's intervals into the wrong piece")
         if keep_all:
             cc = [t for t in split_terms if '==-1' in t]
             rep.check('C20.G', f"{cname}.sufficient_statistics::coalescent-counts-mark", bool(cc), W, facts,
                       f"{cname}: coalescent counts per piece must count marks == −1")
         else:
             # one group per coalescent interval: the trailing group after the last coalescent event is dropped
-            drops = all('groups[:-1]' in ast.unparse(x) for x in ast.walk(ss) if isinstance(x, ast.Call) and method_name(x) == 'map')
+            gnames = {st.targets[0].id for st in ast.walk(ss) if isinstance(st, ast.Assign) and isinstance(st.targets[0], ast.Name) and isinstance(st.value, ast.Call)
+                      and method_name(st.value) == 'tensor_split'}
+            uses = [n for n in ast.walk(ss) if isinstance(n, ast.Name) and n.id in gnames and isinstance(n.ctx, ast.Load)]
+            drops = bool(uses) and all(isinstance(getattr(u, '_parent', None), ast.Subscript) and ast.unparse(u._parent.slice).replace(' ', '') == ':-1' for u in uses)
             rep.check('C20.G', f"{cname}.sufficient_statistics::as-many-groups-as-thetas", drops, W, None,
                       f"{cname}: splitting at the n−1 coalescent events yields n groups; the (empty) last one must be dropped so that there is one statistic per θ")
 
 
 def run(ctx, rep):
+    from sa import callbind
+    callbind.run_for(ctx, rep, 'C20', 5)
     rep.explanation = (
         "C20.Q: GMRF.precision_matrix is folded for field lengths 3..6 with a symbolic precision by executing its indexed stores; the resulting matrix must "
         "satisfy xᵀQx = τ·Σ(x_i − x_{i+1})² as a polynomial identity, be symmetric with zero row sums; the density's three terms are checked as a "
